@@ -23,11 +23,11 @@ LINK_DELTA = {0: (1, 0), 1: (1, 1), 2: (0, 1), 3: (-1, 0), 4: (-1, -1), 5: (0, -
 
 
 def pattern_byte(seed, chip, a):
-    return (a * 167 + (a // 256) * 91 + chip[0] * 59 + chip[1] * 101 + seed * 13) % 256
+    return (a * 167 + (a >> 8) * 91 + chip[0] * 59 + chip[1] * 101 + seed * 13) & 255
 
 
 def data_byte(seed, i):
-    return (i * 73 + (i // 256) * 5 + seed * 29 + 11) % 256
+    return (i * 73 + (i >> 8) * 5 + seed * 29 + 11) & 255
 
 
 def pattern_data(seed, n):
@@ -37,8 +37,23 @@ def pattern_data(seed, n):
 def digest(bs):
     h = 0
     for b in bytearray(bs):
-        h = (h * 257 + b + 1) % 1000000007
+        h = (h * 257 + b + 1) & 0x3fffffff
     return h
+
+
+def pack_runs(cells):
+    """sorted (x, y, address, byte) -> [[x, y, first address, hex of the consecutive bytes], ...]"""
+    runs = []
+    for x, y, a, b in cells:
+        if runs and runs[-1][0] == x and runs[-1][1] == y and runs[-1][2] + len(runs[-1][3]) == a:
+            runs[-1][3].append(b)
+        else:
+            runs.append([x, y, a, bytearray([b])])
+    return [[x, y, a, bytes(bs).hex()] for x, y, a, bs in runs]
+
+
+def unpack_runs(runs):
+    return [(x, y, a + i, b) for x, y, a, hx in runs for i, b in enumerate(bytearray.fromhex(hx))]
 
 
 class Memory(object):
@@ -67,8 +82,10 @@ class Memory(object):
         self.stored[(chip, a)] = b & 0xff
 
     def diff(self):
-        """every byte of the machine that differs from its initial value: [[x, y, address, byte], ...]"""
-        return sorted([c[0], c[1], a, b] for (c, a), b in self.stored.items() if b != self.initial(c, a))
+        """every byte of the machine that differs from its initial value, as runs of consecutive addresses:
+        [[x, y, first address, hex bytes], ...] sorted"""
+        cells = sorted((c[0], c[1], a, b) for (c, a), b in self.stored.items() if b != self.initial(c, a))
+        return pack_runs(cells)
 
 
 class SimMachine(object):
